@@ -27,6 +27,8 @@ func ValueTexts(tier string) []string {
 		`provider::éa`, `provider::éa::x("a")`, `vf(1, decl.foo.id, decl.foo.id)`, `{ ("k") = 1, null = 2, true = 3 }`, `true ? [decl.foo.bar, "x"] : []`, `true ? { k = decl.foo.bar } : {}`, "decl.foo[\n\"k\"\n]", "(decl.\nfoo)", "decl.foo[\n  0\n].x", `1 < decl.foo.id`, `decl.foo.id >= 2`, `decl.foo.bar == "x"`, `decl. foo`, `decl .foo.bar`, `ns ::fn(1)`, `provider::  aws::xy("a")`, `provider :: aws::x`, `[fn2(1, ]`, `sh1("a", "b")`, `sh3("a", "b", )`, `sh1("a", sh3("x", "y", "z"))`, `{ foo = decl.foo.bar, bar = true }`, `{ k = decl.foo.bar }`, `[decl.foo.bar]`,
 		"{\r\n}\r", "{\r\n  foo = \"x\"\r\n}\r", "[\r\n  \"a\",\r\n]\r", "fn(\r\n  \"a\"\r\n)\r", `[null, "b"]`,
 		`string`, `list(string)`, `object({a=string})`, `tuple([string, bool])`, `map(any)`, `object({a=optional(string)})`, `list(`, `object({`, `any`, `object({})`, `list(object({}))`,
+		// half-typed object attribute names that are not in normal form C
+		"{\n  e\u0301l\n}", "{ \u212ae", "{\n  \u00e9l\n}",
 		// a blank between a (type) function name and its parenthesis
 		`map ()`, `list (string)`, `fn ("a")`,
 		// blanks and line breaks between a parenthesis and what it wraps
